@@ -1,3 +1,325 @@
-import LunarVerif.Spec.C04
+import LunarVerif.Proofs.C04Txn
+/-!
+From `load` (the model's loader) and `specCfg` (the reference view of the same configuration) to the
+pair lists of `C04Txn`, and the unpacking of the finding classifier.
+-/
 namespace LunarVerif.C04
+open LunarVerif.FlowGraph LunarVerif.FlowExec
+
+/-! ### `buildAll` yields built flows, declaration by declaration -/
+
+theorem buildAll_pairs {pts : List PType} : ∀ (ds : List FlowDecl) (fs : List (Kind × Flow)),
+    buildAll pts ds = .ok fs →
+    ∃ pl : List (FlowDecl × Flow), pl.map (·.1) = ds ∧ fs = pl.map (fun p => (p.1.kind, p.2)) ∧
+      ∀ p ∈ pl, Built p.1.rep p.2
+  | [], fs, h => by
+    simp only [buildAll, Except.ok.injEq] at h
+    subst h
+    exact ⟨[], rfl, rfl, by simp⟩
+  | d :: ds, fs, h => by
+    unfold buildAll at h
+    cases h1 : buildFlow pts d.rep with
+    | error e => simp [h1] at h
+    | ok f =>
+      simp only [h1] at h
+      cases h2 : buildAll pts ds with
+      | error e => simp [h2] at h
+      | ok fs' =>
+        simp only [h2, Except.ok.injEq] at h
+        subst h
+        obtain ⟨pl, hp1, hp2, hp3⟩ := buildAll_pairs ds fs' h2
+        refine ⟨(d, f) :: pl, by simp [hp1], by simp [hp2], ?_⟩
+        intro p hp
+        rcases List.mem_cons.mp hp with rfl | hp'
+        · exact built_of_buildFlow h1
+        · exact hp3 p hp'
+
+/-- the (representation, flow) pairs of one kind, in order -/
+def pairsOf (kd : Kind) (pl : List (FlowDecl × Flow)) : Pairs :=
+  (pl.filter (·.1.kind == kd)).map fun p => (p.1.rep, p.2)
+
+theorem pairsOf_ok {pl : List (FlowDecl × Flow)} (h : ∀ p ∈ pl, Built p.1.rep p.2) (kd : Kind) :
+    PairsOK (pairsOf kd pl) := by
+  intro q hq
+  simp only [pairsOf, List.mem_map, List.mem_filter] at hq
+  obtain ⟨p, ⟨hp, _⟩, rfl⟩ := hq
+  exact h p hp
+
+theorem filter_map_kind (kd : Kind) : ∀ (pl : List (FlowDecl × Flow)),
+    ((pl.map fun p => (p.1.kind, p.2)).filter (·.1 == kd)).map (·.2) = mflows (pairsOf kd pl)
+  | [] => rfl
+  | p :: pl => by
+    have ih := filter_map_kind kd pl
+    simp only [mflows, pairsOf, List.map_cons, List.filter_cons] at ih ⊢
+    cases h : p.1.kind == kd <;> simp [ih]
+
+def conv (d : FlowDecl) : SFlow := ⟨d.rep.name, d.rep.req, d.rep.res⟩
+
+theorem filter_map_conv (kd : Kind) : ∀ (pl : List (FlowDecl × Flow)),
+    ((pl.map (·.1)).filter (·.kind == kd)).map conv = sflows (pairsOf kd pl)
+  | [] => rfl
+  | p :: pl => by
+    have ih := filter_map_conv kd pl
+    simp only [sflows, pairsOf, List.map_cons, List.filter_cons] at ih ⊢
+    cases h : p.1.kind == kd <;> simp [ih, conv, sflowOf]
+
+/-! ### system flows: the engine's wiring equals the chain when every group has at most one quota -/
+
+theorem sysDeclsOfGroup_eq : ∀ (g : List Quota), g.length ≤ 1 →
+    sysDeclsOfGroup sysConns g = sysDeclsOfGroup chainConns g
+  | [], _ => rfl
+  | [q], _ => by
+    unfold sysDeclsOfGroup
+    cases hq : q.concurrent <;> simp [hq, sysConns, chainConns, chainFrom]
+  | _ :: _ :: _, h => by simp at h
+
+theorem sysDecls_eq (qs : List Quota) (h : mergedGroup qs = false) :
+    sysDecls sysConns qs = sysDecls chainConns qs := by
+  unfold mergedGroup at h
+  simp only [Bool.or_eq_false_iff, decide_eq_false_iff_not, Nat.not_le] at h
+  unfold sysDecls
+  rw [sysDeclsOfGroup_eq _ (by omega), sysDeclsOfGroup_eq _ (by omega)]
+
+theorem sysDeclsOfGroup_no_user (conns : List String → List Conn) (g : List Quota) :
+    (sysDeclsOfGroup conns g).filter (·.kind == .user) = [] := by
+  unfold sysDeclsOfGroup
+  cases g with
+  | nil => rfl
+  | cons q g => simp only; split <;> rfl
+
+theorem sysDecls_no_user (conns : List String → List Conn) (qs : List Quota) :
+    (sysDecls conns qs).filter (·.kind == .user) = [] := by
+  unfold sysDecls
+  rw [List.filter_append, sysDeclsOfGroup_no_user, sysDeclsOfGroup_no_user]
+  rfl
+
+/-! ### shape of the reference user loop -/
+
+theorem suserReq_shape (o : Oracle) (fuel : Nat) : ∀ fs : List SFlow,
+    ((suserReq o fuel fs).2.2.1.isSome = true → (suserReq o fuel fs).2.1 = none) ∧
+    ((suserReq o fuel fs).2.1 = none → (suserReq o fuel fs).2.2.2 = false) ∧
+    (∀ sf k, (suserReq o fuel fs).2.1 = some (sf, k) → sf ∈ fs)
+  | [] => ⟨fun _ => rfl, fun _ => rfl, by simp [suserReq]⟩
+  | f :: fs => by
+    have ih := suserReq_shape o fuel fs
+    unfold suserReq
+    simp only
+    split
+    · exact ⟨fun _ => rfl, fun _ => rfl, by simp⟩
+    · split
+      · rename_i k hk
+        refine ⟨by simp, by simp, ?_⟩
+        intro sf k' h
+        simp only [Option.some.injEq, Prod.mk.injEq] at h
+        rw [← h.1]; exact List.mem_cons_self ..
+      · refine ⟨ih.1, ih.2.1, ?_⟩
+        intro sf k' h
+        exact List.mem_cons_of_mem _ (ih.2.2 sf k' h)
+
+/-! ### unpacking the finding classifier -/
+
+theorem finding_none {s : STxn} (h : finding s = none) {sf : SFlow} {k : String}
+    (ha : s.answered = some (sf, k)) :
+    s.pending = false ∧ mentioned sf.res k = true ∧
+    (∀ t c, firstConn sf.res k = some (.proc t c) → (entry sf.res).isSome = true) ∧
+    (firstConn sf.res k = none → entry sf.res = none) := by
+  unfold finding at h
+  rw [ha] at h
+  simp only at h
+  cases hp : s.pending with
+  | true => simp [hp] at h
+  | false =>
+    simp only [hp, Bool.false_eq_true, if_false] at h
+    cases hm : mentioned sf.res k with
+    | false => simp [hm] at h
+    | true =>
+      simp only [hm, Bool.not_true, Bool.false_eq_true, if_false] at h
+      refine ⟨rfl, rfl, ?_, ?_⟩
+      · intro t c hfc
+        rw [hfc] at h
+        cases he : entry sf.res with
+        | none => simp [he] at h
+        | some r => rfl
+      · intro hfc
+        rw [hfc] at h
+        cases he : entry sf.res with
+        | none => rfl
+        | some r => simp [he] at h
+
+/-! ### names of user flows are unique -/
+
+theorem nodupNames_inj {α : Type} (f : α → String) : ∀ (l : List α), nodupNames (l.map f) = true →
+    ∀ a ∈ l, ∀ b ∈ l, f a = f b → a = b
+  | [], _, a, ha, _, _, _ => by simp at ha
+  | x :: l, h, a, ha, b, hb, hab => by
+    simp only [List.map_cons, nodupNames, Bool.and_eq_true, Bool.not_eq_true', List.contains_eq_mem,
+      decide_eq_false_iff_not] at h
+    have hx : ∀ y ∈ l, f y ≠ f x := fun y hy hfy => h.1 (List.mem_map.mpr ⟨y, hy, hfy⟩)
+    rcases List.mem_cons.mp ha with rfl | ha' <;> rcases List.mem_cons.mp hb with rfl | hb'
+    · rfl
+    · exact absurd hab.symm (hx b hb')
+    · exact absurd hab (hx a ha')
+    · exact nodupNames_inj f l h.2 a ha' b hb' hab
+
+/-! ### assembly -/
+
+/-- what `load = ok` provides -/
+theorem load_pairs {c : Cfg} {order : List String} {l : Loaded} (hl : load c order = .ok l) :
+    ∃ pl : List (FlowDecl × Flow),
+      pl.map (·.1) = sortBy order (c.flows.filter yamlOk) ++ sysDecls sysConns c.quotas ∧
+      l.flows = pl.map (fun p => (p.1.kind, p.2)) ∧
+      (∀ p ∈ pl, Built p.1.rep p.2) ∧
+      nodupNames (((sortBy order (c.flows.filter yamlOk)).filter (·.kind == .user)).map (·.rep.name)) = true := by
+  unfold load at hl
+  simp only at hl
+  split at hl
+  · simp at hl
+  · split at hl
+    · simp at hl
+    · rename_i hnd
+      cases hb : buildAll (c.ptypes ++ sysPTypes)
+          (sortBy order (c.flows.filter yamlOk) ++ sysDecls sysConns c.quotas) with
+      | error e => simp [hb] at hl
+      | ok fs =>
+        simp only [hb, Except.ok.injEq] at hl
+        subst hl
+        obtain ⟨pl, h1, h2, h3⟩ := buildAll_pairs _ _ hb
+        exact ⟨pl, h1, h2, h3, by simpa using hnd⟩
+
+theorem selected_eq {l : Loaded} {pl : List (FlowDecl × Flow)} (h : l.flows = pl.map (fun p => (p.1.kind, p.2))) :
+    l.selected = ⟨mflows (pairsOf .sysStart pl), mflows (pairsOf .user pl), mflows (pairsOf .sysEnd pl)⟩ := by
+  unfold Loaded.selected
+  rw [h, filter_map_kind, filter_map_kind, filter_map_kind]
+
+theorem specCfg_eq {c : Cfg} {order : List String} {pl : List (FlowDecl × Flow)}
+    (hmg : mergedGroup c.quotas = false)
+    (h : pl.map (·.1) = sortBy order (c.flows.filter yamlOk) ++ sysDecls sysConns c.quotas) :
+    specCfg c order =
+      ⟨sflows (pairsOf .sysStart pl), sflows (pairsOf .user pl), sflows (pairsOf .sysEnd pl)⟩ := by
+  unfold specCfg
+  simp only
+  rw [← sysDecls_eq _ hmg, ← h]
+  have e1 := filter_map_conv .sysStart pl
+  have e2 := filter_map_conv .user pl
+  have e3 := filter_map_conv .sysEnd pl
+  unfold conv at e1 e2 e3
+  rw [e1, e2, e3]
+
+/-- names of the user pairs are pairwise different -/
+theorem user_names_inj {c : Cfg} {order : List String} {pl : List (FlowDecl × Flow)}
+    (h : pl.map (·.1) = sortBy order (c.flows.filter yamlOk) ++ sysDecls sysConns c.quotas)
+    (hnd : nodupNames (((sortBy order (c.flows.filter yamlOk)).filter (·.kind == .user)).map (·.rep.name)) = true) :
+    ∀ a ∈ pairsOf .user pl, ∀ b ∈ pairsOf .user pl, a.1.name = b.1.name → a = b := by
+  have hn : (pairsOf .user pl).map (·.1.name) =
+      ((sortBy order (c.flows.filter yamlOk)).filter (·.kind == .user)).map (·.rep.name) := by
+    have h1 : ((pl.map (·.1)).filter (·.kind == .user)).map (·.rep.name) = (pairsOf .user pl).map (·.1.name) := by
+      clear h hnd
+      induction pl with
+      | nil => rfl
+      | cons p pl ih =>
+        simp only [pairsOf, List.map_cons, List.filter_cons] at ih ⊢
+        cases hk : p.1.kind == .user <;> simp [ih]
+    rw [← h1, h, List.filter_append, sysDecls_no_user, List.append_nil]
+  intro a ha b hb hab
+  exact nodupNames_inj (·.1.name) _ (by rw [hn]; exact hnd) a ha b hb hab
+
+/-- System-flow processors never answer a request themselves. -/
+def SysQuiet (sc : SCfg) (o : Oracle) : Prop :=
+  ∀ sf ∈ sc.start ++ sc.finish, ∀ k, (o sf.name k .req).early = false
+
+theorem noAnswer_of_quiet {sf : SFlow} {o : Oracle} (h : ∀ k, (o sf.name k .req).early = false) :
+    NoAnswer sf o .req := fun k => by simp [h k]
+
+/-- **Transaction refinement** (all fuel values): outside the classes of the findings F04a–e the
+    engine model's transaction equals the reference interpreter's. -/
+theorem txn_eq (c : Cfg) (order : List String) (l : Loaded) (o : Oracle) (d : Dir) (fuel : Nat)
+    (hl : load c order = .ok l)
+    (hmg : mergedGroup c.quotas = false)
+    (hq : SysQuiet (specCfg c order) o)
+    (hf : finding (stxn (specCfg c order) o fuel d) = none) :
+    (transaction l.selected o fuel d).trace = (stxn (specCfg c order) o fuel d).trace ∧
+    (transaction l.selected o fuel d).err = (stxn (specCfg c order) o fuel d).err := by
+  obtain ⟨pl, h1, h2, h3, hnd⟩ := load_pairs hl
+  have hsel := selected_eq h2
+  have hspec := specCfg_eq hmg h1
+  rw [hspec] at hq hf ⊢
+  rw [hsel]
+  have hs := pairsOf_ok h3 .sysStart
+  have hu := pairsOf_ok h3 .user
+  have hfi := pairsOf_ok h3 .sysEnd
+  cases d with
+  | res =>
+    have hr := res_eq o fuel _ _ _ hs hu hfi none (by intro p _ fl k h; simp at h)
+    unfold transaction stxn
+    simp only
+    rcases hrr : sresponse ⟨sflows (pairsOf .sysStart pl), sflows (pairsOf .user pl), sflows (pairsOf .sysEnd pl)⟩
+        o fuel none with ⟨rt, re⟩
+    rw [hrr] at hr
+    exact hr
+  | req =>
+    have hqs : ∀ p ∈ pairsOf .sysStart pl, NoAnswer (sflowOf p.1) o .req := by
+      intro p hp
+      apply noAnswer_of_quiet
+      apply hq
+      simp only [List.mem_append]
+      exact Or.inl (List.mem_map.mpr ⟨p, hp, rfl⟩)
+    have hqf : ∀ p ∈ pairsOf .sysEnd pl, NoAnswer (sflowOf p.1) o .req := by
+      intro p hp
+      apply noAnswer_of_quiet
+      apply hq
+      simp only [List.mem_append]
+      exact Or.inr (List.mem_map.mpr ⟨p, hp, rfl⟩)
+    have hinj := user_names_inj h1 hnd
+    have hshape := suserReq_shape o fuel (sflows (pairsOf .user pl))
+    -- the classifier speaks about the answer of the user loop whenever that loop was reached
+    have hans : (sall o .req fuel (sflows (pairsOf .sysStart pl))).err = none →
+        (suserReq o fuel (sflows (pairsOf .user pl))).2.2.1 = none →
+        (stxn ⟨sflows (pairsOf .sysStart pl), sflows (pairsOf .user pl), sflows (pairsOf .sysEnd pl)⟩ o fuel .req).answered
+          = (suserReq o fuel (sflows (pairsOf .user pl))).2.1 ∧
+        (stxn ⟨sflows (pairsOf .sysStart pl), sflows (pairsOf .user pl), sflows (pairsOf .sysEnd pl)⟩ o fuel .req).pending
+          = (suserReq o fuel (sflows (pairsOf .user pl))).2.2.2 ∨
+        (suserReq o fuel (sflows (pairsOf .user pl))).2.1 = none := by
+      intro ha hbe
+      unfold stxn
+      simp only [ha, Option.isSome_none, Bool.false_eq_true, if_false]
+      rcases hss : suserReq o fuel (sflows (pairsOf .user pl)) with ⟨st, ssc, se, sp⟩
+      rw [hss] at hbe
+      simp only at hbe ⊢
+      subst hbe
+      simp only [Option.isSome_none, Bool.false_eq_true, if_false]
+      split
+      · exact Or.inl ⟨rfl, rfl⟩
+      · cases ssc with
+        | none => exact Or.inr rfl
+        | some q => obtain ⟨sf, k⟩ := q; exact Or.inl ⟨rfl, rfl⟩
+    apply req_eq o fuel _ _ _ hs hu hfi hqs hqf
+    · intro ha
+      cases hbe : (suserReq o fuel (sflows (pairsOf .user pl))).2.2.1 with
+      | some e => exact hshape.2.1 (hshape.1 (by simp [hbe]))
+      | none =>
+        rcases hans ha hbe with ⟨h4, h5⟩ | h4
+        · cases hsc : (suserReq o fuel (sflows (pairsOf .user pl))).2.1 with
+          | none => exact hshape.2.1 hsc
+          | some q =>
+            obtain ⟨sf, k⟩ := q
+            rw [← h5]
+            exact (finding_none hf (by rw [h4, hsc])).1
+        · exact hshape.2.1 h4
+    · intro ha sf k hsc p hp hname
+      have hbe : (suserReq o fuel (sflows (pairsOf .user pl))).2.2.1 = none := by
+        cases hbe : (suserReq o fuel (sflows (pairsOf .user pl))).2.2.1 with
+        | none => rfl
+        | some e => have := hshape.1 (by simp [hbe]); rw [hsc] at this; simp at this
+      rcases hans ha hbe with ⟨h4, _⟩ | h4
+      · have hfn := finding_none hf (by rw [h4, hsc])
+        -- the answering reference flow is the view of exactly one user pair: `p`
+        have hmem := hshape.2.2 sf k hsc
+        obtain ⟨q, hq', hqe⟩ := List.mem_map.mp hmem
+        have hpq : p = q := hinj p hp q hq' (by rw [hname, ← hqe]; rfl)
+        subst hpq
+        have hres : sf.res = p.1.res := by rw [← hqe]; rfl
+        rw [hres] at hfn
+        exact ⟨hfn.2.1, hfn.2.2.1, hfn.2.2.2⟩
+      · rw [hsc] at h4; simp at h4
+
 end LunarVerif.C04
